@@ -144,6 +144,16 @@ Section Idx.
     apply (KWF_get _ _ _ _ _ _ H G).
   Qed.
 
+  Lemma sub_in params ck x :
+    WF2 params -> (In x (kelems celems (dflt (zget ck params))) <-> In x (el2 params) /\ key x = ck).
+  Proof.
+    intros H. split.
+    - intros Hx. pose proof (sub_key params ck x H Hx) as E. split; auto.
+      unfold el2. apply (kelems_in _ _ _ _ _ H). rewrite E. unfold kb.
+      destruct (zget ck params); [exact Hx|destruct Hx].
+    - intros [Hx E]. unfold el2 in Hx. apply (kelems_in _ _ _ _ _ H) in Hx. rewrite E in Hx. unfold kb in Hx.
+      destruct (zget ck params); [exact Hx|destruct Hx].
+  Qed.
   Lemma el2_in params x : WF2 params -> (In x (el2 params) <-> In x (b2 params (key x) (hash x))).
   Proof.
     intros H. unfold el2. rewrite (kelems_in _ _ _ _ _ H). unfold b2.
@@ -303,3 +313,63 @@ Section Pos.
   Lemma pos_put_other t i j P : j <> i -> pos j (zput i P t) = pos j t.
   Proof. intros Hn. unfold pos. rewrite zgo; auto. Qed.
 End Pos.
+
+Lemma fold_left_ext_in {A B} (f f' : A -> B -> A) l : forall a,
+  (forall a x, In x l -> f a x = f' a x) -> fold_left f l a = fold_left f' l a.
+Proof.
+  induction l as [|x l IH]; intros a H; simpl; auto.
+  rewrite (H a x (or_introl eq_refl)). apply IH. intros; apply H; right; auto.
+Qed.
+Lemma s_mem_iff a l l' : (In a l <-> In a l') -> s_mem a l = s_mem a l'.
+Proof.
+  intros H. destruct (s_mem a l') eqn:E.
+  - apply s_mem_in. apply H. apply s_mem_in; auto.
+  - apply s_mem_false. rewrite H. apply s_mem_false; auto.
+Qed.
+
+(* a loop over the argument positions of an atom, every round of which changes
+   the index of its own position only *)
+Section Rounds.
+  Context {C : Type}.
+  Variable celems : C -> list atom.
+  Variable p : pred.
+  Variable hash : atom -> Z.
+  Variable chash : Z -> Z.
+  Variable a : atom.
+  Variable f : list (Z * list (Z * list (Z * C))) * bool -> Z * Z -> list (Z * list (Z * list (Z * C))) * bool.
+  Variable Q : atom -> Prop -> Prop.
+  Variable g : bool -> bool -> bool.
+  Variable Pre : Z -> list (Z * list (Z * C)) -> Prop.   (* a round's own precondition on the index of its position *)
+  Hypothesis Hround : forall t b i, WF3 celems p hash chash t -> Pre i (pos i t) ->
+    WF3 celems p hash chash (fst (f (t, b) (i, argz i a))) /\
+    (forall j, j <> i -> pos j (fst (f (t, b) (i, argz i a))) = pos j t) /\
+    (forall x, In x (pel celems i (fst (f (t, b) (i, argz i a)))) <-> Q x (In x (pel celems i t))) /\
+    snd (f (t, b) (i, argz i a)) = g (s_mem a (pel celems i t)) b.
+
+  Lemma rounds_ok ics : forall t b,
+    WF3 celems p hash chash t -> NoDup (map fst ics) -> (forall i c, In (i, c) ics -> c = argz i a) ->
+    (forall i, In i (map fst ics) -> Pre i (pos i t)) ->
+    WF3 celems p hash chash (fst (fold_left f ics (t, b))) /\
+    (forall i, In i (map fst ics) ->
+       forall x, In x (pel celems i (fst (fold_left f ics (t, b)))) <-> Q x (In x (pel celems i t))) /\
+    (forall j, ~ In j (map fst ics) -> pos j (fst (fold_left f ics (t, b))) = pos j t) /\
+    snd (fold_left f ics (t, b)) = fold_left (fun b ic => g (s_mem a (pel celems (fst ic) t)) b) ics b.
+  Proof.
+    induction ics as [|[i c] ics IH]; intros t b Hwf Hnd Hc HPre.
+    - simpl. split; auto. split; [intros i []|]. split; auto.
+    - assert (c = argz i a) by (apply Hc; left; auto). subst c.
+      destruct (Hround t b i Hwf (HPre i (or_introl eq_refl))) as [H1 [H2 [H3 H4]]].
+      cbn [fold_left map fst]. destruct (f (t, b) (i, argz i a)) as [t1 b1]. cbn [fst snd] in *.
+      cbn [map fst] in Hnd. apply NoDup_cons_iff in Hnd. destruct Hnd as [Hni Hnd'].
+      assert (HPre' : forall j, In j (map fst ics) -> Pre j (pos j t1)).
+      { intros j Hj. rewrite H2; [apply HPre; right; auto|]. intros ->. contradiction. }
+      destruct (IH t1 b1 H1 Hnd' (fun j c H => Hc j c (or_intror H)) HPre') as [I1 [I2 [I3 I4]]].
+      split; auto. split; [|split].
+      + intros j [<-|Hj] x.
+        * unfold pel. rewrite I3 by auto. apply H3.
+        * rewrite (I2 j Hj x). unfold pel. rewrite H2; [tauto|]. intros ->. contradiction.
+      + intros j Hj. rewrite I3 by (intros Hj'; apply Hj; right; auto). apply H2. intros ->. apply Hj; left; auto.
+      + rewrite I4, H4. apply fold_left_ext_in. intros b0 [j c] Hin. cbn [fst]. unfold pel. rewrite H2; auto.
+        intros ->. apply Hni. change i with (fst (i, c)). apply in_map; auto.
+  Qed.
+End Rounds.
